@@ -83,6 +83,18 @@ def run(ctx):
         for _ in range(ctx.n(150, 1500)):
             pan = rnd_digits(rng, rng.randrange(13, 22))
             verdict(fmt, o.nibbles(rng.randbytes(8)), pan, rng.randbytes(8))
+        # a well-formed block of ANOTHER or the same format shifted by one or two nibbles (leading zeros / dropped
+        # leading nibble): text-level slips such as lost leading zeros turn these into accepted blocks
+        for L in range(3, 14):
+            for f2 in (0, 2, 3, 4):
+                fillv = {0: 15, 2: 15, 4: 10}.get(f2)
+                wfb = [CTRL[f2], min(max(L, 0), 15)] + [rng.randrange(10) for _ in range(min(L, 12))]
+                wfb += [(fillv if fillv is not None else rng.randrange(10, 16)) for _ in range(16 - len(wfb))]
+                pan = rnd_digits(rng, rng.randrange(13, 22))
+                tail = rng.randbytes(8)
+                for shifted in ([0] + wfb[:15], [0, 0] + wfb[:14], wfb[1:] + [15], wfb[1:] + [rng.randrange(16)], [0] * 14 + wfb[:2],
+                                [0] * 12 + wfb[:4], [0] * 10 + wfb[:6]):
+                    verdict(fmt, shifted, pan, tail)
         # every single-nibble substitution (all 16 values at all 16 positions) of a well-formed block of every length
         for L in range(4, 13):
             fillv = {0: 15, 2: 15, 4: 10}.get(fmt)
